@@ -324,6 +324,14 @@ namespace pika::concurrency::detail {
                 // Load the anchor.
                 anchor_pair lrs = anchor_.lrs(std::memory_order_relaxed);
 
+                // Nodes are recycled: start the ABA tags of the new node's links from the
+                // anchor's tag, which is larger than any tag these links had in an earlier life
+                // of the node. Starting from zero again would let a stalled stabilize() of that
+                // earlier life succeed with its compare-exchange on the recycled node.
+                tag_t const link_tag = static_cast<tag_t>(lrs.get_right_tag());
+                n->left.store(node_pointer(nullptr, link_tag), std::memory_order_relaxed);
+                n->right.store(node_pointer(nullptr, link_tag), std::memory_order_relaxed);
+
                 // Check if the deque is empty.
                 // FIXME: Should we check both pointers here?
                 if (lrs.get_left_ptr() == nullptr)
@@ -341,7 +349,7 @@ namespace pika::concurrency::detail {
                 {
                     // Make the right pointer on our new node refer to the current
                     // leftmost node.
-                    n->right.store(node_pointer(lrs.get_left_ptr()));
+                    n->right.store(node_pointer(lrs.get_left_ptr(), link_tag));
 
                     // Now we want to make the anchor point to our new node as the
                     // leftmost node. We change the state to lpush as the deque
@@ -379,6 +387,12 @@ namespace pika::concurrency::detail {
                 // Load the anchor.
                 anchor_pair lrs = anchor_.lrs(std::memory_order_relaxed);
 
+                // See push_left: the ABA tags of a recycled node's links must not start from
+                // zero again.
+                tag_t const link_tag = static_cast<tag_t>(lrs.get_right_tag());
+                n->left.store(node_pointer(nullptr, link_tag), std::memory_order_relaxed);
+                n->right.store(node_pointer(nullptr, link_tag), std::memory_order_relaxed);
+
                 // Check if the deque is empty.
                 // FIXME: Should we check both pointers here?
                 if (lrs.get_right_ptr() == nullptr)
@@ -396,7 +410,7 @@ namespace pika::concurrency::detail {
                 {
                     // Make the left pointer on our new node refer to the current
                     // rightmost node.
-                    n->left.store(node_pointer(lrs.get_right_ptr()));
+                    n->left.store(node_pointer(lrs.get_right_ptr(), link_tag));
 
                     // Now we want to make the anchor point to our new node as the
                     // leftmost node. We change the state to lpush as the deque
